@@ -548,6 +548,34 @@ pub fn c11_native<G: AffineRepr + 'static>(seed: u64, small_order: Option<Vec<G>
                 }
             }
             out.push((format!("{}: small-order components on two neighbouring point positions that cancel in the sum are rejected ({} encodings tried)", shape.name, tried2), acc2 == 0 && tried2 > 0));
+            // encodings whose two lists have different counts, with a point outside the subgroup in the surplus slot of the
+            // longer list (and in a common slot): rejected at decoding, whatever the verifier would say later
+            {
+                let (pts, scs, ipp) = proof.verif_parts();
+                let (l, r, a, b) = ipp.verif_parts();
+                let mut acc3 = 0;
+                let mut tried3 = 0;
+                for t in torsion.iter() {
+                    let bad: G = (pts[0].into_group() + t.into_group()).into_affine();
+                    for (dl, dr) in [(1usize, 0usize), (0, 1), (2, 0), (0, 2)] {
+                        let (mut l2, mut r2) = (l.to_vec(), r.to_vec());
+                        for _ in 0..dl {
+                            l2.push(bad);
+                        }
+                        for _ in 0..dr {
+                            r2.push(bad);
+                        }
+                        let obj = R1CSProof::verif_from_parts(pts, scs, InnerProductProof::verif_from_parts(l2, r2, a, b));
+                        if let Ok(enc) = obj.to_bytes() {
+                            tried3 += 1;
+                            if !matches!(R1CSProof::<G>::from_bytes(&enc), Err(R1CSError::FormatError)) {
+                                acc3 += 1;
+                            }
+                        }
+                    }
+                }
+                out.push((format!("{}: a point outside the subgroup in the surplus slot of the longer of two unequal round lists is rejected with FormatError ({} encodings tried)", shape.name, tried3), acc3 == 0 && tried3 > 0));
+            }
         }
     }
     out
@@ -593,6 +621,34 @@ pub fn c12_native<G: AffineRepr + 'static>(maxcap: usize) -> Checks {
         }
     }
     out.push((format!("all {} capacity histories new(c1); increase(c2); increase(c3) with c in 0..={} (any order) equal new(max) element-wise, also after a serialisation round trip {:?}", count, maxcap, &bad[..bad.len().min(3)]), bad.is_empty()));
+    // clone and clone_from into objects with a history of their own
+    {
+        let mut bad = vec![];
+        for (sc, sp) in [(4usize, 3usize), (3, 2), (1, 1), (0, 2), (maxcap, 3)] {
+            let source = BulletproofGens::<G>::new(sc, sp);
+            let same = |x: &BulletproofGens<G>| -> bool {
+                x.gens_capacity == sc && x.party_capacity == sp && (0..sp).all(|j| x.share(j).verif_G(sc) == source.share(j).verif_G(sc) && x.share(j).verif_H(sc) == source.share(j).verif_H(sc))
+            };
+            if !catch(|| same(&source.clone())).unwrap_or(false) {
+                bad.push(format!("clone of new({},{})", sc, sp));
+            }
+            for (tc, tp) in [(0usize, 1usize), (2, 1), (4, 1), (1, 2), (5, 4), (sc, sp)] {
+                let r = catch(|| {
+                    let mut target = BulletproofGens::<G>::new(tc, tp);
+                    target.clone_from(&source);
+                    let ok1 = same(&target);
+                    // and the object behaves like a fresh one afterwards
+                    target.increase_capacity(sc + 2);
+                    let fresh = BulletproofGens::<G>::new(sc + 2, sp);
+                    ok1 && (0..sp).all(|j| target.share(j).verif_G(sc + 2) == fresh.share(j).verif_G(sc + 2) && target.share(j).verif_H(sc + 2) == fresh.share(j).verif_H(sc + 2))
+                });
+                if !r.unwrap_or(false) {
+                    bad.push(format!("new({},{}).clone_from(new({},{}))", tc, tp, sc, sp));
+                }
+            }
+        }
+        out.push((format!("clone() and clone_from() into objects of other capacities / party counts give the source's generators (and a later increase_capacity those of a fresh object) {:?}", &bad[..bad.len().min(3)]), bad.is_empty()));
+    }
     // views
     let gens = BulletproofGens::<G>::new(maxcap, 3);
     let mut views_ok = true;
